@@ -463,8 +463,11 @@ impl MarshalledMessageBody {
         match push_calls(self) {
             Ok(ret) => Ok(ret),
             Err(e) => {
-                // reset state to before any of the push calls happened
-                self.sig.truncate(sig_len)?;
+                // reset state to before any of the push calls happened. The signature is cut back to what it
+                // was before the calls. This must not be able to fail (SignatureBuffer::truncate validates the
+                // remaining signature and refuses ones longer than 255 chars), the bytes and fds have to be
+                // rolled back in any case.
+                self.sig.to_string_mut().truncate(sig_len);
                 self.buf.truncate(buf_len);
                 self.raw_fds.truncate(fds_len);
                 Err(e)
